@@ -27,7 +27,7 @@ FUNCTIONS = ['MpsMpoOBC.orthogonalize_site_', 'absorb_central_', 'diagonalize_ce
              'remove_central_', 'linalg.qr / svd / truncation_mask / apply_mask as used there', 'backend_np.norm (stub)']
 ASSUMPTIONS = ['LAPACK qr/svd contracts', 'backend.norm: nu >= 0, nu^2 == sum|x|^2', 'exact arithmetic',
                'induction: every step is shown from an arbitrary (atomic symbolic) pre-state, so sweeps of any length follow']
-OUTSIDE = ['norm()/Schmidt values/entropies EQUAL to those of the dense state across every cut (needs uniqueness of singular values + products of isometry assumptions: non-linear ideal reasoning z3 does not finish)',
+OUTSIDE = ['Schmidt values EQUAL to those of the dense state (power-sum certificates exceed the budget except for U(1), N = 2 on some seeds: not registered); entropy VALUES (log: transcendental); norm() for N > 3',
            'Eckart-Young optimality itself (cited, not re-proved)', 'degenerate-spectrum tie behaviour beyond C13', 'chains beyond the 3-site window (covered by induction, not executed)']
 BOUNDS = {'quick': {'window': 'N in 1..3, bond dimension <= 2, all sites symbolic', 'families': 'spin-1/2 (dense, Z2, U1), spinless fermions (Z2, U1), qudit', 'objects': ['mps', 'mpo (N<=2)']},
           'thorough': {'as quick': 'more structures, spin-1'}}
@@ -37,7 +37,7 @@ FAMS = [('spin12', 'dense'), ('spin12', 'Z2'), ('spin12', 'U1'), ('spinless', 'Z
 
 def cases(tier, seed):
     out = []
-    reps = 1 if tier == 'quick' else 3
+    reps = 1 if tier == 'quick' else 24
     for rep in range(reps):
         fac = {'fam': list(range(len(FAMS))), 'N': [1, 2, 3], 'to': ['first', 'last'], 'normalize': [False, True], 'obj': ['mps', 'mps', 'mpo'], 'step': ['qr', 'qr_absorb', 'absorb_other_way']}
         for i, row in enumerate(cat.covering(fac, seed=seed * 41 + rep, strength=2)):
@@ -55,6 +55,15 @@ def cases(tier, seed):
             out.append(c)
     for i, (fam, N, to, normalize) in enumerate(itertools.product([0, 2, 4], [1, 2], ['first', 'last'], [False, True])):
         out.append({'kind': 'zero', 'fam': fam, 'N': N, 'to': to, 'normalize': normalize, 'tier': tier, 'id': f'zero-{i}', 'seed': hash_seed(seed, 'C08', 'zero', i)})
+    for i, (fam, N) in enumerate(itertools.product(range(len(FAMS)), [1, 2, 3])):
+        if N == 3 and FAMS[fam][1] == 'dense' and (tier == 'quick' or FAMS[fam][0] == 'qdit'):
+            continue        # dense blocks: 3^k sign forks per QR (spin-1/2: thorough only; qudit N=3: beyond the budget)
+        out.append({'kind': 'norm', 'fam': fam, 'N': N, 'tier': tier, 'id': f'norm-{fam}-{N}', 'seed': hash_seed(seed, 'C08', 'norm', i)})
+    for i, (fam, N) in enumerate(itertools.product(range(len(FAMS)), [2])):
+        # NOT registered: the certificates for the chain canonize_ + N x (QR, SVD) are found within the budget only for the U(1) families at
+        # N = 2 and only on some seeds (path budget on others): an unstable check is no check.  The kind is kept for experiments (dbg.py).
+        continue
+        out.append({'kind': 'schmidt', 'fam': fam, 'N': N, 'tier': tier, 'id': f'schmidt-{fam}-{N}', 'seed': hash_seed(seed, 'C08', 'schmidt', i)})
     for i, (obj, N, alpha) in enumerate(itertools.product(['mps', 'mpo'], [1, 2, 3], [1, 2, 0.5])):
         out.append({'kind': 'entropy_wiring', 'obj': obj, 'N': N, 'alpha': alpha, 'tier': tier, 'id': f'entropy-{obj}-{N}-{alpha}', 'seed': hash_seed(seed, 'C08', 'ent', i)})
     for N in (1, 2, 3, 4):
@@ -345,6 +354,56 @@ def k_zero(ctx, spec):
     ctx.check(psi.pC is None, 'zero state: canonize_ leaves no central block')
     ctx.is_zero(dense_chain(psi, ph), 'zero state: canonize_ keeps the zero state')
     return {'N': N, 'zero_site': z}
+
+
+def k_norm(ctx, spec):
+    """norm() (canonisation sweep with normalize=False, returns the accumulated factor) squared == <psi|psi> of the dense state, and >= 0"""
+    rng, ops, psi, obj = _chain(ctx, dict(spec, obj='mps'))
+    ph = ops.space()
+    A0 = dense_chain(psi, ph)
+    nrm2 = (dense.conj(A0) * A0).sum()
+    snap = [psi.A[n] for n in range(psi.N)]
+    nu = psi.norm()
+    ctx.check(all(psi.A[n] is snap[n] for n in range(psi.N)) and psi.pC is None, 'norm() leaves the state untouched')
+    ctx.prove((nu >= 0) if ctx.mode == 'sym' else (nu >= -1e-12), 'norm() >= 0')
+    ctx.eq([nu * nu], [nrm2], 'norm()^2 == <psi|psi> of the dense state')
+    return {'N': psi.N}
+
+
+def k_schmidt(ctx, spec):
+    """get_Schmidt_values(): at every cut the returned (normalised) values s_a satisfy  sum_a s_a^{2j} <psi|psi>^j == tr((M M^dagger)^j)  for
+    j = 1 .. number of values, M = dense state matricised at the cut: the power sums determine the multiset, so the values ARE the singular
+    values of the dense state divided by its norm (Newton identities); values are >= 0"""
+    rng, ops, psi, obj = _chain(ctx, dict(spec, obj='mps'))
+    ph = ops.space()
+    N = psi.N
+    A0 = dense_chain(psi, ph)
+    nrm2 = (dense.conj(A0) * A0).sum()
+    sv = psi.get_Schmidt_values()
+    ctx.check(len(sv) == N + 1, 'get_Schmidt_values: N+1 cuts', len(sv))
+    d = A0.shape
+    for k in range(N + 1):
+        vals = list(sv[k]._data)
+        for x in vals:
+            ctx.prove((x >= 0) if ctx.mode == 'sym' else (x >= -1e-12), 'Schmidt values >= 0')
+        rows = int(np.prod(d[:k])) if k else 1
+        M = A0.reshape(rows, -1)
+        G = M @ dense.conj(M.T)          # rows x rows
+        if G.shape[0] > M.shape[1]:
+            G = dense.conj(M.T) @ M
+        r = min(M.shape)
+        ctx.check(len(vals) <= r, 'no more Schmidt values than the dimension of the cut', (len(vals), r))
+        P = None
+        # symbolic run: j = 1 (normalisation) everywhere; j = 2 (with j = 1: both values of a two-dimensional cut) only where the certificate is
+        # found within the budget (U(1) families, N = 2); float run: all j
+        npow = r if ctx.mode == 'float' else (min(r, 2) if (FAMS[spec['fam']][1] == 'U1' and N == 2) else 1)
+        nj = 1
+        for j in range(1, npow + 1):
+            P = G if P is None else P @ G
+            tr = sum(P[i, i] for i in range(P.shape[0]))
+            lhs = sum(x ** (2 * j) for x in vals) * nrm2 ** j
+            ctx.eq([lhs], [tr], f'cut {k}: sum s^{2 * j} <psi|psi>^{j} == tr((M M^dagger)^{j})')
+    return {'N': N, 'cuts': N + 1}
 
 
 def k_entropy_wiring(ctx, spec):
